@@ -962,11 +962,13 @@ def check_x2j(run: Run, case, ans) -> list[Disagreement]:
 # XML round trip (observed only) ------------------------------------------------------------------
 XML_NAMES = ['a', 'b', 'c', 'item', 'x-y', 'n1', '_u']
 XML_NS = [None, None, 'urn:one', 'urn:two', 'http://example.com/ns#']
-XML_TEXT = ['', 't', ' text ', 'a<b', 'x&y', ']]>', '"q\'', 'é\U0001f600', 'line1\nline2', '\ttab', '  ', 'A>B']
+XML_TEXT = ['', 't', ' text ', 'a<b', 'x&y', ']]>', '"q\'', 'é\U0001f600', 'line1\nline2', '\ttab', '  ', 'A>B',
+            "it's", 't&u', '>>', 'e', 'a\rb', 'x\r\ny', '&amp;', '&#13;']
 
 
-def gen_xml(rng, lib: str, depth: int):
-    """builds a tree with the given library; returns the root"""
+def gen_xml(rng, lib: str, depth: int, big: bool = False):
+    """builds a tree with the given library; returns the root.  big: more than the serializer's 8 KiB
+    output buffer, with long texts, so that chunk boundaries fall inside text and tags"""
     c = ep()
     if lib == 'lxml':
         import lxml.etree as E
@@ -1000,7 +1002,14 @@ def gen_xml(rng, lib: str, depth: int):
                 ch.tail = rng.choice(XML_TEXT)
             el.append(ch)
         return el
-    return build(depth, True)
+    root = build(depth, True)
+    if big:
+        for i in range(rng.randrange(3, 9)):
+            ch = E.SubElement(root, qname())
+            ch.text = ''.join(rng.choice(["it's ", 'long text ', 'x&y ', '%d ' % i, 'é ']) for _ in range(rng.randrange(300, 900)))
+            ch.tail = rng.choice(XML_TEXT)
+            ch.set('n', str(i))
+    return root
 
 
 def canon_xml(el) -> Any:
@@ -1015,30 +1024,87 @@ def canon_xml(el) -> Any:
     return ['elem', tag, sorted(el.attrib.items()), el.text or '', el.tail or '', [canon_xml(c) for c in el]]
 
 
+def subtree_has_cr(el, include_own_tail=False) -> bool:
+    """F17n trigger: a carriage return in character data (text, tail of a descendant, comment, PI) of the subtree"""
+    if el.text and '\r' in el.text:
+        return True
+    for ch in el:
+        if (ch.tail and '\r' in ch.tail) or subtree_has_cr(ch):
+            return True
+    return bool(include_own_tail and el.tail and '\r' in el.tail)
+
+
+def canon_doc(tree) -> Any:
+    """document node: the children of the document in order (comments / PIs beside the root element: lxml only)"""
+    root = tree.getroot()
+    before, after = [], []
+    if hasattr(root, 'getprevious'):
+        x = root.getprevious()
+        while x is not None:
+            before.insert(0, canon_xml(x)[:-1])
+            x = x.getprevious()
+        x = root.getnext()
+        while x is not None:
+            after.append(canon_xml(x)[:-1])
+            x = x.getnext()
+    top = canon_xml(root)
+    top[4] = ''
+    return ['document', before, top, after]
+
+
+XML_VARIANTS = {
+    'root': 'parse-xml(serialize(.))',
+    'inner': 'parse-xml(serialize(.))',
+    'decl': 'parse-xml(serialize(., map{"omit-xml-declaration": false()}))',
+    'doc': 'parse-xml(serialize(/))',
+}
+
+
 def check_xml(run: Run, case) -> list[Disagreement]:
     root = case['_root']
-    want = canon_xml(root)
-    want[4] = ''
+    variant = case.get('variant', 'root')
     st = run.stats
+    elem = case.get('_elem') if variant == 'inner' else None
+    tree = case.get('_tree') if variant == 'doc' else None
+    node = elem if elem is not None else root
+    if variant == 'doc':
+        want = canon_doc(tree)
+    else:
+        want = canon_xml(node)
+        want[4] = ''
+    tags = ['F17n'] if case['lib'] == 'etree' and subtree_has_cr(node) else []
+    expr = XML_VARIANTS[variant]
     try:
-        res = xq('parse-xml(serialize(.))', root=root)
+        res = xq(expr, root=tree if tree is not None else root, _item=elem)
         doc = res[0] if isinstance(res, list) else res
-        r2 = doc.getroot()
-        got = canon_xml(r2)
-        got[4] = ''
+        inner = getattr(doc, 'value', None)
+        if inner is not None and hasattr(inner, 'getroot'):
+            doc = inner                      # document node wrapper -> the ElementTree object
+        if variant == 'doc':
+            got = canon_doc(doc)
+        else:
+            got = canon_xml(doc.getroot())
+            got[4] = ''
         impl = json.dumps(got, ensure_ascii=True)
-        deq = xq('deep-equal(parse-xml(serialize(.))/*, .)', root=root)
+        deq = None
+        if variant in ('root', 'inner'):
+            deq = xq('deep-equal(parse-xml(serialize(.))/*, .)', root=root, _item=elem)
+        elif variant == 'doc':
+            deq = xq('deep-equal(parse-xml(serialize(/)), /)', root=tree)
     except Exception as e:
         impl, deq = err_text(e), None
     spec = json.dumps(want, ensure_ascii=True)
-    st.count('xml:' + case['lib'])
+    st.count('xml:%s:%s%s' % (case['lib'], variant, ':big' if case.get('big') else ''))
+    if tags:
+        st.count('xml:CR-in-character-data (F17n trigger)')
     out = []
+    cj = {'kind': 'XML', 'lib': case['lib'], 'variant': variant, 'expr': expr, 'xml': spec if len(spec) < 3000 else spec[:3000] + '...'}
     if impl != spec:
-        out.append(Disagreement(case_json(case) | {'xml': spec}, impl, None, spec=spec, what='parse-xml(serialize(node)) structure',
-                                site='fn:serialize / fn:parse-xml'))
-    elif deq is not True:
-        out.append(Disagreement(case_json(case) | {'xml': spec}, 'deep-equal=%r' % (deq,), None, spec='deep-equal=True',
-                                what='fn:deep-equal(parse-xml(serialize(node)), node)', site='fn:deep-equal'))
+        out.append(Disagreement(cj, impl, None, spec=spec, what='parse-xml(serialize(node)) structure',
+                                site='fn:serialize / fn:parse-xml', tags=tags))
+    elif deq is not None and deq is not True and not (variant == 'inner' and elem is not None and elem.tail):
+        out.append(Disagreement(cj, 'deep-equal=%r' % (deq,), None, spec='deep-equal=True',
+                                what='fn:deep-equal(parse-xml(serialize(node)), node)', site='fn:deep-equal', tags=tags))
     return out
 
 
@@ -1306,9 +1372,29 @@ def gen_cases(run: Run) -> list[dict]:
                       'policy': rng.choice([None, 'first', 'last', 'reject'])})
     for _ in range(400 * n):
         cases.append({'kind': 'X2J', 'elem': gen_elem(rng, rng.choice([0, 1, 2, 3]))})
-    for _ in range(250 * n):
+    for k in range(250 * n):
         lib = rng.choice(['etree', 'lxml'])
-        cases.append({'kind': 'XML', 'lib': lib, '_root': gen_xml(rng, lib, rng.choice([0, 1, 2, 3]))})
+        variant = rng.choice(['root', 'root', 'inner', 'inner', 'decl', 'doc'])
+        big = k % 40 == 0
+        root = gen_xml(rng, lib, rng.choice([0, 1, 2, 3]) if variant != 'inner' else rng.choice([1, 2, 3]), big=big)
+        c = {'kind': 'XML', 'lib': lib, 'variant': variant, '_root': root, 'big': big}
+        if variant == 'inner':
+            inner = [e for e in root.iter() if isinstance(e.tag, str) and e is not root]
+            if not inner:
+                c['variant'] = 'root'
+            else:
+                c['_elem'] = rng.choice(inner)
+        elif variant == 'doc':
+            if lib == 'etree':
+                E = ep()['ET']
+            else:
+                import lxml.etree as E
+            c['_tree'] = E.ElementTree(root)
+            if lib == 'lxml':
+                for _ in range(rng.randrange(0, 3)):
+                    x = E.Comment(rng.choice([' c ', 'x'])) if rng.random() < 0.5 else E.ProcessingInstruction('p1', 'd')
+                    (root.addprevious if rng.random() < 0.6 else root.addnext)(x)
+        cases.append(c)
     for _ in range(120 * n):
         cases.append(gen_multi(rng))
     rng.shuffle(cases)          # interleave the families: a reused token sees different kinds of inputs in turn
